@@ -159,7 +159,9 @@ def step {α} [Inhabited α] (c : Cfg) (s : St α) : Op α → St α × Out α
   | .chunk ch => let r := chunk c s ch; (r.1, .frames r.2)
   | .finalize => let r := finalize c s; (r.1, .frames r.2)
   | .full x => if s.started then (s, .valueError) else (s, .frames (full c x))
-  | .fbf x k => if s.started then (s, .valueError) else (init, .frames (fbf c x k))
+  | .fbf x k =>
+    -- `frame_by_frame_calculation` drives the computer it is given (it does not reset it first)
+    if s.started then (s, .valueError) else (init, .frames (streamFrom c s (splitEvery k x)))
 
 def run {α} [Inhabited α] (c : Cfg) (s : St α) : List (Op α) → St α × List (Out α)
   | [] => (s, [])
